@@ -25,6 +25,7 @@ import traceback
 ROOT = os.path.dirname(os.path.dirname(os.path.abspath(__file__)))
 REPO = os.environ.get('VERIF_REPO', '/repo')
 KNOWN_FILE = os.path.join(ROOT, 'known_findings.json')
+OUT = os.environ.get('VERIF_OUT') or ROOT
 NPROC = int(os.environ.get('VERIF_NPROC', '16'))
 CASE_TIMEOUT = float(os.environ.get('VERIF_CASE_TIMEOUT', '20'))
 
@@ -236,6 +237,12 @@ def main_check(chk, argv):
     args = ap.parse_args(argv)
     seed = int(os.environ.get('VERIF_SEED', '0') or 0)
     pid = chk.pid
+    import mindsdb_sql
+    import sly
+    for m in (mindsdb_sql, sly):
+        if not os.path.realpath(m.__file__).startswith(os.path.realpath(REPO) + '/'):
+            print(f'{pid}: {m.__name__} was imported from {m.__file__}, not from the tree under test {REPO}; refusing to run')
+            return 3
 
     if args.replay:
         rec = json.load(open(args.replay))
@@ -264,7 +271,7 @@ def main_check(chk, argv):
     t2 = time.time()
     known = load_known(pid)
 
-    os.makedirs(os.path.join(ROOT, 'replays', pid), exist_ok=True)
+    os.makedirs(os.path.join(OUT, 'replays', pid), exist_ok=True)
     unknown_sigs, known_hits = [], []
     for sig in sorted(total['viol']):
         slot = total['viol'][sig]
@@ -284,7 +291,7 @@ def main_check(chk, argv):
         rec = {'property': pid, 'signature': sig, 'message': msg, 'count': slot['count'],
                'case': chk.encode_case(case) if hasattr(chk, 'encode_case') else jsonable(case),
                'described': jsonable(chk.describe_case(case))}
-        path = os.path.join(ROOT, 'replays', pid, '%016x.json' % h64(sig))
+        path = os.path.join(OUT, 'replays', pid, '%016x.json' % h64(sig))
         with open(path, 'w') as fh:
             json.dump(rec, fh, indent=1, ensure_ascii=False, default=repr)
         exit_code = 1
@@ -329,8 +336,8 @@ def main_check(chk, argv):
         'violations': sum(total['viol'][s]['count'] for s in unknown_sigs),
         'timing': {'setup_and_enumeration_s': round(t1 - t0, 2), 'execution_s': round(t2 - t1, 2)},
     }
-    os.makedirs(os.path.join(ROOT, 'evidence'), exist_ok=True)
-    with open(os.path.join(ROOT, 'evidence', pid + '.json'), 'w') as fh:
+    os.makedirs(os.path.join(OUT, 'evidence'), exist_ok=True)
+    with open(os.path.join(OUT, 'evidence', pid + '.json'), 'w') as fh:
         json.dump(ev, fh, indent=1, ensure_ascii=False, default=repr)
     print(f'{pid} tier={args.tier} seed={seed}: cases={total["n"]} distinct={len(total["keys"])} '
           f'known={len(known_hits)} unlisted={len(unknown_sigs)} timeouts={total["timeouts"]} wall={ev["wall_s"]}s')
